@@ -29,11 +29,12 @@ THEOREMS = [
     'CC.C14_translator_accepts',
     'CC.C14_adapters', 'CC.C14_sign', 'CC.C14_denotes_value', 'CC.C14_reverse_neg', 'CC.C14_arrow', 'CC.C14_factories',
     'CC.C14_ctors', 'CC.C14_lookup', 'CC.C14_lookup_params',
-    'CC.C14_denotes_real', 'CC.C14_agree_real_cartesian', 'CC.C14_agree_magnitude',
+    'CC.C14_denotes_real', 'CC.C14_denotes_complex', 'CC.C14_agree_real_cartesian', 'CC.C14_agree_magnitude',
 ]
 OPEN_STATEMENTS = [
-    'C14_denotes at the level of the text rests on CC.C18_real_partial_statement (open, see C18): CC.C14_denotes_real is '
-    'proved under that hypothesis; complex and time-function texts are covered by the correspondence and the oracle only',
+    'C14_denotes at the level of the text is proved for the real annotations (CC.C14_denotes_real) and the Cartesian complex '
+    'annotations (CC.C14_denotes_complex: signs + each part text read back accurately), below 1e16 outside the rounds-up-to-one '
+    'region; polar and time-function texts are covered by the correspondence and the oracle only',
     'C14_agree for the numeric read-back of Cartesian vs polar (|q|, arg q are runtime parameters): oracle only',
 ]
 ASSUMPTIONS = c18.ASSUMPTIONS + [
